@@ -72,6 +72,20 @@ def Excl_cmpSameIterSV (t : Dense) (reuse : Option Dense) (leftTensor same unsaf
   !leftTensor && same && !unsafe_ && !isScalar t.ap.shape &&
     (t.requiresIterator || (match reuse with | some r => r.requiresIterator || r.ap.o.col != t.ap.o.col | none => false))
 
+/-- F35 (C16/C07): a reuse tensor whose data order differs from the operand's gets its order *flag*
+    toggled by `handleFuncOpts` (strides untouched) and is then filled in the operand's storage
+    order on the contiguous path: the result's elements are permuted. -/
+def Excl_reuseOrderFlip (t : Dense) (reuse : Option Dense) : Bool :=
+  match reuse with
+  | some r => r.ap.o.col != t.ap.o.col && t.win.len != 1
+  | none => false
+
+/-- F36 (C16): comparisons and MinBetween/MaxBetween allocate their result row-major and (the
+    iterator decision having been taken before the allocation) fill it in the storage order of a
+    column-major operand. -/
+def Excl_rowMajorResult (t : Dense) (reuseGiven unsafe_ : Bool) : Bool :=
+  t.ap.o.col && !reuseGiven && !unsafe_ && t.win.len != 1 && !isScalar t.ap.shape
+
 /-- does `T axes` on `t` run the physical transpose first? (pending, not vector, not "reversed") -/
 def T_materialises (t : Dense) (axes : List Int) : Bool :=
   match t.old, t.ap.T axes with
